@@ -78,11 +78,12 @@ CHECKS = [
           "callee contract. Model level: add/set/get_parameter contracts and the lemma 'get after set returns the value set' (closed-world "
           "dispatch over all parameter classes).",
   "design_ref": "DESIGN.md section 6 C18",
-  "note": COMMON_NOTE + " The constructors of the Int / Float / Str / Bool parameters are verified against 'TypeError / ValueError leave the "
+  "note": COMMON_NOTE + " The constructors of the Int / Float / Str / Bool / Quantity parameters are verified (the quantity one also establishes the "
+          "class invariant its set_value relies on) against 'TypeError / ValueError leave the "
           "parent map unchanged (no half-built child registered: fix 6009138); otherwise the value and the default satisfy the "
           "declared rule and the parameter is registered under its key' -- over an ASSUMED contract of the base constructor "
-          "InputParameter.__init__ (its call of parent.add needs frame reasoning the solvers leave open) and of the quantity / "
-          "selection-list / unit / map constructors (bounded sweep); of "
+          "InputParameter.__init__ (its call of parent.add needs frame reasoning the solvers leave open) and of the selection-list / unit / map "
+          "constructors (bounded sweep); of "
           "InputParameterMap.add the child-order clauses (assumed + bounded sweep). InputParameterQuantity.set_value IS verified "
           "(instance of the parameter's quantity class, bounds on the SI value whatever the unit, over the Quantity model of C17 and "
           "a class invariant whose fields are constructor-only). Values are plain python values except for the quantity parameter. Strings in "
